@@ -174,12 +174,12 @@ theorem findQuote_nip (qre : Pat) (text : Str) : ∀ fuel i, NIP b (findQuote qr
   | zero => intro i; cases b <;> (unfold findQuote; nip_go)
   | succ n ih => intro i; cases b <;> (unfold findQuote; nip_go)
 
-theorem fragQuoteLoop_nip (defs : List QuoteDef) : ∀ fuel text, NIP b (fragQuoteLoop defs fuel text) := by
+theorem fragQuoteLoop_nip (defs : List QuoteDef) : ∀ fuel depth text, NIP b (fragQuoteLoop defs fuel depth text) := by
   intro fuel
   induction fuel with
-  | zero => intro text; cases b <;> (unfold fragQuoteLoop; nip_go)
+  | zero => intro depth text; cases b <;> (unfold fragQuoteLoop; nip_go)
   | succ n ih =>
-    intro text
+    intro depth text
     have hf := findQuote_nip (b := b) (quotesRe defs) text
     cases b <;> (unfold fragQuoteLoop; nip_go)
 
